@@ -8,7 +8,7 @@ CFG = dict(
         "Inst.gen_atomic: every LockManager op takes both table guards once before any table access (ops are atomic steps)",
         "Inst.gen_finish_spec: commit/abort/cleanup_timeouts release by transaction id and drop the transaction from the wait-for graph",
     ],
-    crate="nvh_c12",
+    crate="nvh_c12", shard=100,
     header=H + "From NV.Common Require Import LockTable.\nFrom NV.C12 Require Import Model Run.\nOpen Scope N_scope.",
     kinds={"lm": ("lm_case", "check_lm"), "coord": ("lm_case", "check_lm"), "graph": ("graph_case", "check_graph")},
     known_classes={},
